@@ -79,7 +79,9 @@ JudgeDec(t, i, T, v, e) ==
             ELSE /\ Check(t, i, "NotUnderrun", FALSE)
                  /\ LET D == SrcDevs(t, T, v, [e EXCEPT !.inp = Cases[t].ev[e.src].wire]) IN
                       IF e.src = 0 \/ D = {} THEN TRUE ELSE PrintT(<<"DEV", Cases[t].id, i, D>>)
-       [] e.why = "nearmiss" -> Check(t, i, "Accepted", e.st \in {"error", "underrun"})
+       [] e.why = "nearmiss" ->   \* e.T2 = the decoding type with one tagging operation perturbed
+            IF TagsOf(e.T2) = TagsOf(T) THEN TRUE     \* the perturbed operation is hidden by a later IMPLICIT one
+            ELSE Check(t, i, "Accepted", e.st \in {"error", "underrun"})
        [] e.why = "rewrite" ->
             \* a candidate rewrite is judged only if the reference confirms it is a legitimate
             \* non-canonical form: same value under the BER reader, refused by the strict reader
